@@ -720,6 +720,8 @@ def _oracle_body(case):
         else:
             for i, r in enumerate(rows):
                 for j in r:
+                    if not exact and abs(dist[i][j] - rads[i]) <= 1e-4 * rads[i]:
+                        continue        # pair inside the float guard band of the threshold: either answer is allowed
                     if i not in rows[j]:
                         v.append(("C14/adj/not-symmetric", f"adjacency[{i}][{j}] is True but [{j}][{i}] is False (thr {q['thr']})"))
                         break
